@@ -8,6 +8,8 @@
 #include "BrentOneDimension.h"
 #include "OneDimensionOptimizationTools.h"
 
+#include <utility>
+
 using namespace bpp;
 
 /******************************************************************************/
@@ -62,6 +64,9 @@ void BrentOneDimension::doInit(const ParameterList& params)
   else
   {
     bracket = OneDimensionOptimizationTools::inwardBracketMinimum(_xinf, _xsup, function(), getParameters());
+    // Inward bracketing returns the end points in a and b and the best inner point in c,
+    // whereas the code below expects the inner point in b.
+    std::swap(bracket.b, bracket.c);
   }
 
   if (getVerbose() > 0)
